@@ -382,6 +382,10 @@ class Engine:
                     if cand is not None and not cand.get('static'):
                         g = cand
                         break
+            if g is not None and isinstance(g.get('init'), dict) and g['init'].get('k') == 'str' and '[' in g.get('t', '') and 'char' in g.get('t', ''):
+                # a character array initialised by a string literal: its bytes and the terminating NUL
+                bs = [ord(c) for c in g['init'].get('v', '')] + [0]
+                g = dict(g, init={'k': 'list', 'v': [{'k': 'int', 'v': (b - 256 if b >= 128 and 'unsigned' not in g.get('t', '') else b)} for b in bs]})
             ok = g is not None and '[' in g.get('t', '') and isinstance(g.get('init'), dict) and g['init'].get('k') == 'list'
             if ok and not g.get('t', '').startswith('const '):
                 # not declared const: still a lookup table if it is private to its file and nothing there writes it or takes an address into it
@@ -389,7 +393,7 @@ class Engine:
             owner = None
             if ok:
                 for u_ in self.db.units.values():
-                    if any(g is g_ for g_ in u_.globals.values()):
+                    if any(g is g_ or (g_.get('name') == g.get('name') and g_.get('loc') == g.get('loc')) for g_ in u_.globals.values()):
                         owner = u_
             cache[root] = (g['init'], g.get('fields') or [], owner) if ok else None
         if cache[root] is None:
